@@ -168,3 +168,72 @@ package errbase
 //@   ensures result == rootOf(err)
 //@   ensures err == nil ==> result == nil
 //@   loop 1: invariant rootOf(err) == rootOf(old(err)) && (old(err) == nil ==> err == nil)
+
+// ======================================================================================
+// Wire format (C01, C02, C04, C11, C13): functional contracts of the encoder and the decoder.
+// encOf(e) names the result of EncodeError(ctx, e); decOf(x) names the result of
+// DecodeError(ctx, x) in this process (both are functions of their argument up to allocation).
+// Calls through the registries are pure applications (callresN).
+// ======================================================================================
+
+//@ spec func encOf(e error) errorspb.EncodedError
+//@ spec func decOf(x errorspb.EncodedError) error
+//@ spec func detailsOf(e error) errorspb.EncodedErrorDetails
+//@ spec func isOpaque(e error) bool = typeis(e, *opaqueLeaf) || typeis(e, *opaqueLeafCauses) || typeis(e, *opaqueWrapper)
+//@ spec func keyOf(e error) TypeKey = resolveKey(backwardRegistry, fullNameT(typeof(e)))
+//@ spec func extOf(e error) string = hasMethod(typeof(e), "ErrorKeyMarker() string") ? keyMarkerM(e) : ""
+//@ spec func safeDetailsOf(e error) []string = hasMethod(typeof(e), "SafeDetails() []string") ? SafeDetailsM(e) : nil
+
+// how an opaque wrapper (i.e. a receiver that does not know the type) re-assembles the text
+//@ spec func reasm(prefix string, mt MessageType, causeText string) string = mt == FullMessage ? prefix : (prefix == "" ? causeText : prefix + ": " + causeText)
+
+//@ func extractPrefix
+//@   props C01 C04
+//@   requires err != nil && cause != nil
+//@   ensures result1 == Prefix || result1 == FullMessage
+//@   ensures result1 == FullMessage ==> result0 == msg(err)
+//@   ensures (result1 == Prefix && result0 == "") ==> msg(err) == msg(cause)
+//@   ensures (result1 == Prefix && result0 != "") ==> msg(err) == result0 + ": " + msg(cause)
+//@   ensures reasm(result0, result1, msg(cause)) == msg(err)
+
+//@ method (*opaqueWrapper).Error
+//@   props C01 C04 C10
+//@   ensures result == reasm(self.prefix, self.messageType, msg(self.cause))
+
+//@ func encodeAsAny
+//@   props C01 C04
+//@   ensures result == (payload == nil ? nil : anyOf(payload))
+
+//@ func EncodeError
+//@   props C01 C02 C04 C11 C13
+//@   requires err != nil
+//@   defines encOf(err)
+//@   ensures (cause1(err) != nil) == (wrapperOf(result) != nil)
+//@   ensures (cause1(err) == nil) == (leafOf(result) != nil)
+//@   ensures complete(result)
+
+//@ func encodeWrapper
+//@   props C01 C02 C04 C11
+//@   purecalls
+//@   requires err != nil && cause != nil
+//@   ensures wrapperOf(result) != nil && leafOf(result) == nil && completeWrapper(wrapperOf(result))
+//@   ensures wrapperOf(result).Cause == encOf(cause)
+//@   ensures typeis(err, *opaqueWrapper) ==> wrapperOf(result).Message == err.(*opaqueWrapper).prefix && wrapperOf(result).Details == err.(*opaqueWrapper).details && wrapperOf(result).MessageType == err.(*opaqueWrapper).messageType
+//@   ensures !typeis(err, *opaqueWrapper) ==> wrapperOf(result).Details.OriginalTypeName == fullNameT(typeof(err)) && wrapperOf(result).Details.ErrorTypeMark.FamilyName == keyOf(err) && wrapperOf(result).Details.ErrorTypeMark.Extension == extOf(err)
+//@   ensures (!typeis(err, *opaqueWrapper) && encoders.has(keyOf(err))) ==> wrapperOf(result).Message == callres0(encoders[keyOf(err)], ctx, err) && wrapperOf(result).Details.ReportablePayload == callres1(encoders[keyOf(err)], ctx, err) && wrapperOf(result).Details.FullDetails == (callres2(encoders[keyOf(err)], ctx, err) == nil ? nil : anyOf(callres2(encoders[keyOf(err)], ctx, err))) && wrapperOf(result).MessageType == callres3(encoders[keyOf(err)], ctx, err)
+//@   ensures (!typeis(err, *opaqueWrapper) && !encoders.has(keyOf(err))) ==> reasm(wrapperOf(result).Message, wrapperOf(result).MessageType, msg(cause)) == msg(err) && wrapperOf(result).Details.ReportablePayload == safeDetailsOf(err) && wrapperOf(result).Details.FullDetails == nil
+
+//@ func encodeLeaf
+//@   props C01 C02 C04 C11 C13
+//@   purecalls
+//@   requires err != nil
+//@   requires forall i int :: 0 <= i && i < len(causes) ==> causes[i] != nil
+//@   ensures leafOf(result) != nil && wrapperOf(result) == nil && completeLeaf(leafOf(result))
+//@   ensures len(leafOf(result).MultierrorCauses) == len(causes)
+//@   ensures forall i int :: 0 <= i && i < len(causes) ==> leafOf(result).MultierrorCauses[i] != nil && deref(leafOf(result).MultierrorCauses[i]) == encOf(causes[i])
+//@   ensures typeis(err, *opaqueLeaf) ==> leafOf(result).Message == err.(*opaqueLeaf).msg && leafOf(result).Details == err.(*opaqueLeaf).details
+//@   ensures typeis(err, *opaqueLeafCauses) ==> leafOf(result).Message == err.(*opaqueLeafCauses).msg && leafOf(result).Details == err.(*opaqueLeafCauses).details
+//@   ensures (!typeis(err, *opaqueLeaf) && !typeis(err, *opaqueLeafCauses)) ==> leafOf(result).Details.OriginalTypeName == fullNameT(typeof(err)) && leafOf(result).Details.ErrorTypeMark.FamilyName == keyOf(err) && leafOf(result).Details.ErrorTypeMark.Extension == extOf(err)
+//@   ensures (!typeis(err, *opaqueLeaf) && !typeis(err, *opaqueLeafCauses) && leafEncoders.has(keyOf(err))) ==> leafOf(result).Message == callres0(leafEncoders[keyOf(err)], ctx, err) && leafOf(result).Details.ReportablePayload == callres1(leafEncoders[keyOf(err)], ctx, err) && leafOf(result).Details.FullDetails == (callres2(leafEncoders[keyOf(err)], ctx, err) == nil ? nil : anyOf(callres2(leafEncoders[keyOf(err)], ctx, err)))
+//@   ensures (!typeis(err, *opaqueLeaf) && !typeis(err, *opaqueLeafCauses) && !leafEncoders.has(keyOf(err))) ==> leafOf(result).Message == msg(err) && leafOf(result).Details.ReportablePayload == safeDetailsOf(err)
+//@   loop 1: invariant forall j int :: 0 <= j && j < $n ==> cs[j] != nil && deref(cs[j]) == encOf(causes[j])
